@@ -364,6 +364,25 @@ func (r *beRun) exec(ci, oi int, op *BEOp) *beRec {
 
 				return nil
 			})
+		case "walkErr":
+			// the callback fails at the (SleepNs+1)-th entry: Walk must stop, report the error and the
+			// number of entries processed so far, and leave the cache usable
+			limit := int(op.SleepNs)
+			rec.n, rec.walkErr = r.bk.walk(func(key []byte, v interface{}, exp time.Time) error {
+				if len(rec.walk) >= limit {
+					return errWalkStop
+				}
+
+				rec.walk = append(rec.walk, walkEnt{key: string(key), val: v, exp: exp.UnixNano(), seq: e.s.NextSeq()})
+
+				return nil
+			})
+			e.out.fault("walk_callback_err")
+		case "dumpErr":
+			// Dump into a writer that fails after SleepNs bytes
+			fw := &failingWriter{left: int(op.SleepNs)}
+			rec.n, rec.err = r.bk.dump(fw)
+			e.out.fault("dump_writer_err")
 		case "dump":
 			var buf bytes.Buffer
 
@@ -400,6 +419,27 @@ func (r *beRun) exec(ci, oi int, op *BEOp) *beRec {
 	}
 
 	return rec
+}
+
+var errWalkStop = errors.New("walk callback failed (injected)")
+
+type failingWriter struct{ left int }
+
+func (w *failingWriter) Write(p []byte) (int, error) {
+	if w.left <= 0 {
+		return 0, errStream
+	}
+
+	if len(p) > w.left {
+		n := w.left
+		w.left = 0
+
+		return n, errStream
+	}
+
+	w.left -= len(p)
+
+	return len(p), nil
 }
 
 func beFlags(op *BEOp) string {
@@ -455,7 +495,8 @@ func runBE(e *env) {
 		}
 
 		r.spawnClients()
-		ok = e.runAll("")
+		// an operation that never returns has no result the reference model could agree with
+		ok = e.runAll(e.sc.Prop + ".STUCK")
 		e.checkPanics()
 	default:
 		if f := beModes[r.sc.Mode]; f != nil {
